@@ -318,6 +318,9 @@ def run_case(case):
         return [("C03:command-missing:" + short_name(row), "%s is in the standard's table but the library "
                  "has no such class" % row.name)]
     if case["op"] == "flags":
+        if case.get("after_use"):
+            decode_storm(mods)
+            return [(sig + ":after-use", msg) for sig, msg in check_flags(row, cls, mods)]
         return check_flags(row, cls, mods)
     if case["op"] == "frame":
         return check_frame(row, cls, case["args"], mods)
@@ -325,10 +328,49 @@ def run_case(case):
 
 
 # -------------------------------------------------------------- shards ----
+def decode_storm(mods):
+    """Use the library the way a bus monitor would before looking at the class flags: decode frames under every
+    device type (implemented or not), with and without maps.  The flags of a command are class attributes that
+    drivers act on (send twice, ENABLE DEVICE TYPE prefix); using the library must not change them."""
+    command, frame, address = mods
+    n = 0
+    for dt in range(256):
+        for hi in (0x01, 0x09, 0xFF, 0x85):
+            for lo in (list(range(0xE0, 0x100)) + [0x00, 0x20, 0x90, 0xA7]) if dt not in (0, 1, 4, 5, 6, 8) else range(256):
+                try:
+                    command.from_frame(frame.ForwardFrame(16, (hi << 8) | lo), devicetype=dt)
+                except Exception:  # noqa - judged by C01
+                    pass
+                n += 1
+    for v in range(0, 1 << 24, 4099):
+        try:
+            command.from_frame(frame.ForwardFrame(24, v))
+        except Exception:  # noqa
+            pass
+        n += 1
+    return n
+
+
 def _shard(arg):
     kind, name = arg[0], arg[1]
     res = Result()
     mods = _load()
+    if kind == "flags-after-use":
+        n = decode_storm(mods)
+        res.extra["decodes_before_flag_recheck"] = n
+        for row in T.ROWS:
+            cls = lib_class(row)
+            if cls is None:
+                continue
+            case = {"row": row.name, "op": "flags", "after_use": True}
+            res.count()
+            res.nontrivial()
+            for sig, msg in check_flags(row, cls, mods):
+                res.violation(sig + ":after-use", case, msg + " (after %d decodes under all device types; the flags were "
+                              "right on a freshly imported library)" % n)
+        res.label("flags-after-use", len(T.ROWS))
+        res.sample({"row": T.ROWS[0].name, "op": "flags", "after_use": True}, cls="flags after use")
+        return res
     row = T.BY_NAME[name]
     cls = lib_class(row)
     if kind == "flags":
@@ -377,6 +419,7 @@ def run(ctx):
                 shards.append(("list", row.name, idx[lo:lo + CHUNK]))
     # biggest shards first so the pool drains evenly
     shards.sort(key=lambda s: -(s[3] - s[2] if s[0] == "range" else len(s[2]) if s[0] == "list" else 0))
+    shards.insert(0, ("flags-after-use", None))
     ctx.pmap(_shard, shards)
     res = ctx.result
     res.exhaustive = not ctx.quick
